@@ -28,7 +28,9 @@ Inductive ccase : Type :=
 | CWriteSize (n : N) (o : res bytes)
 | CWriteSym (s : bytes) (o : res bytes)
 (* vm.NewLine called with these raw arguments (None = nil slice, Some [] = empty non-nil slice) *)
-| CNewLine (op : N) (strargs : list bytes) (byteargs numargs : option bytes) (o : bytes)
+| CNewLine (op : N) (strargs : list bytes) (byteargs numargs : option bytes) (o : bytes) (dec : res (instr * bytes))
+(* the assembler (asm.Parse) on the one-line source text of a numeric instruction: bytes written, ending *)
+| CAsmLine (i : instr) (o : res bytes)
 (* the dev/disasm command run on a file holding b: exit status and standard output *)
 | CDisasm (b : bytes) (exit : N) (out : bytes).
 
@@ -50,7 +52,8 @@ Definition corr_ok (c : ccase) : bool :=
   | CSymSplit b o => outcome_eqb bb_eqb (sym_split b) o
   | CWriteSize n o => outcome_eqb bytes_eqb (write_size n) o
   | CWriteSym s o => outcome_eqb bytes_eqb (write_sym s) o
-  | CNewLine op strs ba na o => bytes_eqb (new_line op strs ba na) o
+  | CNewLine op strs ba na o dec => bytes_eqb (new_line op strs ba na) o && outcome_eqb ib_eqb (decode_one o) dec
+  | CAsmLine i o => outcome_eqb bytes_eqb (encode_asm i) o
   | CDisasm b ex out =>
     (* dev/disasm/main.go: ToString error => "parse error" on stderr, exit 1; otherwise the listing
        is printed (through Printf, so a listing containing '%' is not compared) and exit 0 *)
@@ -71,14 +74,17 @@ Definition c14_ok (c : ccase) : bool :=
     else true
   | CEncode i nlb asmw =>
     if wf_instrb i then outcome_eqb bytes_eqb asmw (Ok nlb) else true
-  | CNewLine op strs ba na o =>
+  | CNewLine op strs ba na o dec =>
     (* whatever instruction the reference encoding of these arguments denotes (integers in any
-       accepted form: minimal, zero-length for 0, padded), the bytes NewLine produced decode to
-       exactly that instruction and nothing is left over *)
+       accepted form: minimal, zero-length for 0, padded), the bytes NewLine produced are decoded BY
+       THE VM'S DECODER (dec) to exactly that instruction and nothing is left over *)
     match decode_one (new_line op strs ba na) with
-    | Ok (i, []) => outcome_eqb ib_eqb (decode_one o) (Ok (i, []))
+    | Ok (i, []) => outcome_eqb ib_eqb dec (Ok (i, []))
     | _ => true
     end
+  | CAsmLine i o =>
+    (* the assembler writes for a numeric instruction what the reference encoder writes *)
+    if wf_instrb i then outcome_eqb bytes_eqb o (Ok (encode i)) else true
   | _ => true
   end.
 
